@@ -354,3 +354,4 @@ theorem min_length_le (a b : List Bytes) (h : (∀ t ∈ a, t ≠ []) ∨ (∀ t
   rcases h with h | h
   · have := length_le_tokBytes a h; omega
   · have := length_le_tokBytes b h; omega
+end ModVerif.TieFnModfileCmp
